@@ -682,6 +682,14 @@ func doReplay(path string) {
 	}
 }
 
+// vh.NewRng(seed) starts consecutive seeds one step apart on the same sequence; decorrelate them
+func mixSeed(seed uint64) uint64 {
+	z := seed + 0x9E3779B97F4A7C15
+	z = (z ^ (z >> 30)) * 0xBF58476D1CE4E5B9
+	z = (z ^ (z >> 27)) * 0x94D049BB133111EB
+	return z ^ (z >> 31)
+}
+
 func main() {
 	seed := flag.Uint64("seed", 1, "PRNG seed")
 	dir := flag.String("out", "", "output directory")
@@ -701,7 +709,7 @@ func main() {
 	}
 	defer os.RemoveAll(tmp)
 	o := vh.NewOut(*dir)
-	g := &Gen{r: vh.NewRng(*seed), w: NewWorld(tmp), o: o, tmp: tmp, sigs: map[string]bool{}, branches: map[string]int{}}
+	g := &Gen{r: vh.NewRng(mixSeed(*seed)), w: NewWorld(tmp), o: o, tmp: tmp, sigs: map[string]bool{}, branches: map[string]int{}}
 	for s := 0; s < *shards; s++ {
 		g.history(s, *batches, *nsearch)
 	}
